@@ -199,7 +199,7 @@ def check_case(case, ctx):
     ctx.nontrivial(nontrivial)
 
 
-def _check_edited_in_place(ctx, spec, ds, enums):
+def _check_edited_in_place(ctx, spec, ds, enums, clause="C05.select_after_in_place_edit"):
     """History on one dataset object: select, then replace / add / delete variables in place
     (ds[name] = ..., del ds[name]), then select again - the second answer reflects the dataset
     as it is now.  (Done on a shallow copy with its own convention, so that the dataset handed
@@ -216,7 +216,7 @@ def _check_edited_in_place(ctx, spec, ds, enums):
     natives = [refmodel.native_index(spec, "face", lin, enums["face"]) for lin in lins]
     victim = numeric[0]["name"]
     doomed = numeric[-1]["name"] if len(numeric) > 1 else None
-    ctx.at("C05.select_after_in_place_edit")
+    ctx.at(clause)
     first = conv.select_indexes(natives)
     before = numpy.asarray(first[victim].values, dtype="float64")
     work[victim] = work[victim].astype("float64") * 2 + 1
@@ -225,16 +225,16 @@ def _check_edited_in_place(ctx, spec, ds, enums):
         del work[doomed]
     what = f"select_indexes({lins}) after {victim} was replaced, added_later added" + (
         f" and {doomed} deleted" if doomed else "") + " in place"
-    with ctx.using("C05.select_after_in_place_edit", what):
+    with ctx.using(clause, what):
         second = work.ems.select_indexes(natives)
         got = numpy.asarray(second[victim].values, dtype="float64")
         ctx.check(got.shape == before.shape and numpy.array_equal(got, before * 2 + 1, equal_nan=True),
-                  "C05.select_after_in_place_edit",
+                  clause,
                   lambda: f"{what}: {victim} = {got.tolist()}; the dataset now holds "
                   f"{(before * 2 + 1).tolist()} there")
-        ctx.check("added_later" in second.variables, "C05.select_after_in_place_edit",
+        ctx.check("added_later" in second.variables, clause,
                   lambda: f"{what}: the new variable is missing from the selection")
-        ctx.check(doomed is None or doomed not in second.variables, "C05.select_after_in_place_edit",
+        ctx.check(doomed is None or doomed not in second.variables, clause,
                   lambda: f"{what}: the deleted variable {doomed} is still selected")
     ctx.label("history:edited_in_place_between_selections")
 
